@@ -1,7 +1,7 @@
 use core::panic;
 use std::vec;
 
-use laythe_core::{object::Class, utils::IdEmitter, value::Value, ObjRef};
+use laythe_core::{managed::Trace, object::Class, utils::IdEmitter, value::Value, ObjRef};
 
 /// The cache for property access and setting
 #[derive(Clone, Debug)]
@@ -37,6 +37,38 @@ pub struct InlineCache {
   /// one for each location a method is
   /// invoke
   invoke: Vec<Option<InvokeCache>>,
+}
+
+/// The cached classes (and cached methods) are compared by address: they must stay alive
+/// for as long as an entry names them, so the caches are part of the vm's root set
+impl Trace for InlineCache {
+  fn trace(&self) {
+    self.property.iter().for_each(|entry| {
+      if let Some(cache) = entry {
+        cache.class.trace();
+      }
+    });
+    self.invoke.iter().for_each(|entry| {
+      if let Some(cache) = entry {
+        cache.class.trace();
+        cache.method.trace();
+      }
+    });
+  }
+
+  fn trace_debug(&self, log: &mut dyn std::io::Write) {
+    self.property.iter().for_each(|entry| {
+      if let Some(cache) = entry {
+        cache.class.trace_debug(log);
+      }
+    });
+    self.invoke.iter().for_each(|entry| {
+      if let Some(cache) = entry {
+        cache.class.trace_debug(log);
+        cache.method.trace_debug(log);
+      }
+    });
+  }
 }
 
 impl InlineCache {
